@@ -149,4 +149,3 @@ func vc_C20_supertriangle_contains() {
 		vfAssert(vfOr(vfAnd(vfAnd(o > 0, o0 > 0), vfAnd(o1 > 0, o2 > 0)), vfAnd(vfAnd(o < 0, o0 < 0), vfAnd(o1 < 0, o2 < 0))), "every input point lies strictly inside the super triangle")
 	}
 }
-
